@@ -189,10 +189,12 @@ impl<'a> NumberPartsFmt<'a> {
                         if let Some(ref f) = parts.factor {
                             tokens.push(Span::plain("* "));
                             tokens.push(Span::number(f));
+                            tokens.push(Span::plain(" "));
                         }
                         if let Some(ref d) = parts.divfactor {
                             tokens.push(Span::plain("| "));
                             tokens.push(Span::number(d));
+                            tokens.push(Span::plain(" "));
                         }
                         tokens.push(Span::unit(unit));
                     } else if let Some(ref dim) = parts.dimensions {
@@ -202,10 +204,12 @@ impl<'a> NumberPartsFmt<'a> {
                         if let Some(ref f) = parts.factor {
                             tokens.push(Span::plain("* "));
                             tokens.push(Span::number(f));
+                            tokens.push(Span::plain(" "));
                         }
                         if let Some(ref d) = parts.divfactor {
                             tokens.push(Span::plain("| "));
                             tokens.push(Span::number(d));
+                            tokens.push(Span::plain(" "));
                         }
                         tokens.push(Span::unit(dim));
                     }
